@@ -159,11 +159,28 @@ def run_verus(rs, modules, tag, rlimit=None):
     # hard wall-clock limit: z3 does not always honour its resource limit (seen: 2 h inside one query); a run that hits it is
     # undecided, never an alarm
     wall = int(os.environ.get('PSC_VERUS_WALL_S', '2400'))
+    import signal
+
+    class _P:
+        pass
+    p = _P()
     try:
-        p = subprocess.run(['timeout', '-k', '10', str(wall)] + cmd, cwd=os.path.dirname(rs), stdout=subprocess.PIPE, stderr=subprocess.PIPE, text=True)
+        pr = subprocess.Popen(cmd, cwd=os.path.dirname(rs), stdout=subprocess.PIPE, stderr=subprocess.PIPE, text=True, start_new_session=True)
     except Exception as e:
         raise Undecided('verus could not be run: %s' % e)
-    if p.returncode in (124, 137):
+    try:
+        p.stdout, p.stderr = pr.communicate(timeout=wall)
+        p.returncode = pr.returncode
+    except subprocess.TimeoutExpired:
+        # kill the whole session: z3 children outlive a killed verus and keep the pipes open
+        try:
+            os.killpg(pr.pid, signal.SIGKILL)
+        except Exception:
+            pass
+        try:
+            pr.communicate(timeout=30)
+        except Exception:
+            pass
         raise Undecided('verus exceeded the wall-clock limit of %d s (modules %s)' % (wall, ' '.join(modules or [])[:300]))
     dt = time.time() - t0
     try:
